@@ -8,6 +8,8 @@ func init() {
 	register(&PropConfig{
 		ID:       "C10",
 		Packages: []string{"./runtime", "."},
+		Corpus:   true,
+		Extra:    func(r *Run) { r.VerifyGenerated(r.corpus, "C10") },
 		Assume: []string{
 			"writer contract: an io.Writer accepts a prefix of each write and all of it iff it returns nil",
 			"bufio.Writer contract: sticky error; a write either buffers or flushes a prefix of pending++data to its target",
